@@ -97,6 +97,9 @@ def main():
 
     def text(c):
         try:
+            if c.get('unprinted'):                # decoded as a request does that never prints the record (a process filter
+                D.trace_of(c)                     # that hides it, a callstacks request): the handler runs, str() does not
+                return 'decoded'
             return D.text_of(D.impl_fn(c))
         except Exception as e:
             return 'raise ' + core.err_name(e)
